@@ -259,6 +259,13 @@ def case_special(name):
                                          "merge: %d points remain, expected %d" % (len(s.points), exp))
                     jit = cc.copy(points=cc.points + 1e-7 * rng.uniform(-1, 1, cc.points.shape))
                     jit.merge_duplicate_points(decimals=4)
+                    # the documented alias, on a moved copy: it merges the mesh it is called on
+                    moved = cc.copy(points=cc.points + 3.0)
+                    sw = moved.sweep(decimals=6)
+                    exp = len(np.unique(np.round(cc.points, 9), axis=0))
+                    run.compare("mesh.merge_duplicate_points", "tool=merge_duplicate_points clause=alias-sweep-on-a-copy",
+                                float(len(sw.points) != exp) + float(np.abs(sw.points.min(0) - moved.points.min(0)).max()), 1e-6,
+                                "mesh.copy(points).sweep() does not return the merged copy", unit="merge:alias")
                 # duplicates that sit astride a rounding boundary (x = 0.125 +- 1e-16 with decimals=2): judged here with its own key
                 qa = fem.Rectangle(a=(0, 0), b=(0.125, 1), n=(2, 3))
                 qb = fem.Rectangle(a=(0.125, 0), b=(0.3, 1), n=(2, 3))
